@@ -438,7 +438,8 @@ func c20Build() {
 		d.n(m)
 	})
 	c20Add("parse.Mediatype", 1, func(r *rand.Rand, op *c20Op) {
-		op.Data = gen.Mutate(r, []byte(gen.Pick(r, []string{"text/html", "text/html; charset=UTF-8", " text/plain ;charset = utf-8 ; q=0.8;x", "application/json;a=b;a=c", "a/b;;=;", "image/svg+xml ; base64"})), c16DataDict, r.Intn(3))
+		op.Data = gen.Mutate(r, []byte(gen.Pick(r, []string{"text/html", "text/html; charset=UTF-8", " text/plain ;charset = utf-8 ; q=0.8;x", "application/json;a=b;a=c", "a/b;;=;", "image/svg+xml ; base64",
+			"text/html; charset=utf-8", "multipart/form-data; charset=utf-8; boundary=xyz", "text/css; charset=utf-8 ;q=1", "text/plain;charset=utf-8", "application/json; charset=utf-8"})), c16DataDict, r.Intn(3))
 	}, func(op *c20Op, d *c20Dig) {
 		b := c20Priv(op.Data, 4)
 		mt, params := parse.Mediatype(b)
@@ -453,6 +454,13 @@ func c20Build() {
 			d.s(params[k])
 		}
 		d.b(b[:cap(b)])
+		if params != nil {
+			// the returned map is this caller's own result: what it does with it is nobody else's business
+			for _, k := range keys {
+				delete(params, k)
+			}
+			params["edited-by-caller"] = "1"
+		}
 	})
 	c20Add("parse.DataURI", 2, func(r *rand.Rand, op *c20Op) {
 		op.Data = gen.Hostile(r, c16Corpus, c16DataDict, 200)
